@@ -150,6 +150,24 @@ def corrupt_quiesce_bytes(run):
     return None
 
 
+def corrupt_duel_dup_id(run):
+    """duel round: a single put and a batch item were given the same id"""
+    for e in run:
+        if e.get("op") == "as_quiesce_c" and len(e["ids"]) >= 2:
+            e["ids"][-1] = e["ids"][0]
+            return run
+    return None
+
+
+def corrupt_duel_overwritten(run):
+    """duel round: an accepted record holds another record's bytes at quiescence, len one short"""
+    for e in run:
+        if e.get("op") == "as_quiesce_c" and len(e["ids"]) >= 2:
+            e["fv"][0] = e["fv"][-1]
+            return run
+    return None
+
+
 def _files(s):
     return sorted(glob.glob(os.path.join(s["_out"], "*.ndjson")))
 
@@ -209,6 +227,9 @@ def run_ext(ctx):
     aq = _files(s_aq)
     ctx.selftest_corrupt(TRACE, first_with(aq, lambda e: e.get("op") == "as_quiesce" and len(e["puts"]) >= 2 and not e["removed"]),
                          corrupt_quiesce_dup_id, "async store stress: one id handed out for two accepted records")
+    fd = first_with(aq, lambda e: e.get("op") == "as_quiesce_c" and len(e["ids"]) >= 2)
+    ctx.selftest_corrupt(TRACE, fd, corrupt_duel_dup_id, "async store duel round: a single put and a batch item share one id")
+    ctx.selftest_corrupt(TRACE, fd, corrupt_duel_overwritten, "async store duel round: an accepted record overwritten by another one")
     ctx.selftest_corrupt(TRACE, aq[0], corrupt_quiesce_len, "async store stress: len() one short at quiescence")
     ctx.selftest_corrupt(TRACE, aq[0], corrupt_quiesce_bytes, "async store stress: an accepted record reads back with other bytes")
     ctx.selftest_corrupt(TRACE_STORE, _files(s_as)[0], corrupt_store_get, "an async store get returning another record")
@@ -234,8 +255,9 @@ def run_ext(ctx):
                        "in-flight limit 1 / n / n+1; "
                        "collect: seeded sequential add/check_timeout/flush/len histories (max 1..5, timeouts 0, 2, 8 ms, 10 s) and producers (1..3) + start_timeout_checker; "
                        "store: 1, 2, 4, 8 concurrent tasks on AsyncMemoryBlobStore / AsyncFileStore / AsyncCompressedBlobStore; "
-                       "storeq: 100 stress rounds, 2 / 4 / 8 tasks sharing one store (memory, zstd over memory, file, zstd over file) on 4 runtime threads: bursts of put, put_batch of 1 / 2 / 17 / 200, "
-                       "get, get_batch, remove, contains, len, judged at quiescence (ids pairwise distinct, every record its own bytes, len); "
+                       "storeq: 80 stress rounds, 2 / 4 / 8 tasks sharing one store (memory, zstd over memory, file, zstd over file) on 4 runtime threads: bursts of put, put_batch of 1 / 2 / 17 / 200, "
+                       "get, get_batch, remove, contains, len; every second AsyncMemoryBlobStore round a duel: 1-2 tasks storing 8 batches of 2000 back to back against 1-6 tasks storing single records; "
+                       "judged at quiescence (ids pairwise distinct, every record its own bytes, len); "
                        "yield: 1..20 fibers x FiberYield / FiberYieldHandle / YieldPoint / GlobalYield x budgets 0..255; helpers of CooperativeUtils / YieldingIterator; "
                        "aio: seeded FiberFile read / read_at / seek / read_to_end / write histories on files of 0..200 bytes with read-ahead 8 B..256 KiB, copy, vectored I/O, "
                        "1..8 parallel readers of one file, FiberIoUtils; distinct = runs (each with its own seed-derived configuration)")
